@@ -1,145 +1,6 @@
-import QuillModel.Extracted.Backend
-import QuillModel.Props.C16
-import QuillModel.Props.C20
-import QuillModel.Props.C07Drain
-import QuillModel.Props.C17
-import QuillModel.Props.C17Removal
-/-!
-Side-conditions of the C16 / C17 / C20 / C07-drain theorems, re-proved for the facts extracted from the current
-headers (`tools/extractors/backend.py`). If an edit to the headers changes one of the constructs the model
-mirrors (a comparison operator, the guard of a macro, the width of a counter …) this file stops compiling.
--/
-namespace Obligations.BackendC
-open Backend
-
-theorem extraction_complete : Extracted.backendFailures = [] := by decide
-
-/-! ### C16 -/
-
-/-- the model's numeric levels are the ranks of `enum class LogLevel`: the enum has exactly these enumerators in
-    this order and no explicit values, so the C++ comparison of two `LogLevel`s is the comparison of the
-    positions — which is what `shouldLog` / `sinkAccepts` compare -/
-theorem level_order :
-    Extracted.backendLevelNames =
-      ["TraceL3", "TraceL2", "TraceL1", "Debug", "Info", "Notice", "Warning", "Error", "Critical", "Backtrace",
-       "None", "Dynamic"] := by decide
-
-/-- rank of a level name in the extracted enum -/
-def levelRank (n : String) : Nat := Extracted.backendLevelNames.idxOf n
-
-/-- the numbers the model uses: 0 TraceL3 … 4 Info … 8 Critical, 9 Backtrace (the backtrace branch of
-    `processEvent`), 10 None (default backtrace flush level) -/
-theorem level_ranks :
-    levelRank "TraceL3" = 0 ∧ levelRank "TraceL2" = 1 ∧ levelRank "TraceL1" = 2 ∧ levelRank "Debug" = 3 ∧
-    levelRank "Info" = 4 ∧ levelRank "Notice" = 5 ∧ levelRank "Warning" = 6 ∧ levelRank "Error" = 7 ∧
-    levelRank "Critical" = 8 ∧ levelRank "Backtrace" = 9 ∧ levelRank "None" = 10 ∧ levelRank "Dynamic" = 11 := by
-  decide
-
-/-- the severity order the documentation promises is the numeric order the model compares:
-    for every pair of user levels, `shouldLog a b` iff `b` does not come after `a` in the enum -/
-theorem level_compare_is_rank_compare :
-    (List.range 9).all (fun a => (List.range 11).all (fun b =>
-      shouldLog a b == decide (Extracted.backendLevelNames.idxOf (Extracted.backendLevelNames.getD b "") ≤
-                               Extracted.backendLevelNames.idxOf (Extracted.backendLevelNames.getD a "")))) = true := by
-  decide
-
-/-- the constructs `shouldLog`, `applyFront (.log …)`, `sinkAccepts` and `writeToSinks` mirror are in place:
-    `should_log_statement` is `>=`; both macros wrap the call (hence the argument evaluation) in that test;
-    `Sink::apply_all_filters` is "level `<` threshold ⇒ false, then all_of the filters"; `_write_log_statement`
-    asks each sink's own `apply_all_filters` inside the loop and passes `transit_event.log_level()`;
-    `TransitEvent::log_level()` selects the macro's level unless it is `Dynamic`; the decoder reads the dynamic
-    level or resets it to `None` for a reused event -/
-theorem c16_structure :
-    Extracted.frontendLevelCmpGe = true ∧ Extracted.macroGuardsEvaluation = true ∧
-    Extracted.sinkLevelCmpLt = true ∧ Extracted.sinkFiltersAllOf = true ∧ Extracted.perSinkFilterInLoop = true ∧
-    Extracted.eventLevelSelect = true ∧ Extracted.dynamicLevelDecodedOrReset = true := by decide
-
-/-- C16, frontend, in the names of the header: a statement of level `stmt` is skipped by a logger at level
-    `lg` iff `stmt` comes before `lg` in `enum class LogLevel` -/
-theorem C16_frontend_extracted (stmt lg : String)
-    (h1 : stmt ∈ Extracted.backendLevelNames) (h2 : lg ∈ Extracted.backendLevelNames) :
-    shouldLog (levelRank stmt) (levelRank lg) = true ↔ levelRank lg ≤ levelRank stmt := by
-  have _ := h1; have _ := h2
-  exact C16_shouldLog_iff _ _
-
-/-- C16, backend, for any state: instance of `C16_sinks_exact` (no side-condition depends on the extraction
-    beyond `c16_structure`) -/
-theorem C16_sinks_extracted (s : BSt) (st : Stmt) (sids : List Nat) (h : (writeToSinks s st sids).2 = false) :
-    (writeToSinks s st sids).1.log =
-      ((sids.filter (fun sid => sinkAccepts (s.sinkOf sid) st)).map (PC.writeEv st)).reverse ++ s.log :=
-  C16_sinks_exact s st sids h
-
-/-! ### C20 -/
-
-/-- the obligation chosen for the invalid-context counter: at least 32 bits, i.e. it cannot wrap while fewer than
-    `2^32` thread contexts are registered at once (each owns a queue of at least a kilobyte: beyond any process).
-    The 8-bit counter of the pinned tree fails this (finding F13, repaired). -/
-theorem invalid_counter_wide : 32 ≤ Extracted.invalidBits := by decide
-
-/-- a context is dropped only when invalid with an empty queue and an empty transit buffer (`ctxEmpty` in
-    `cleanupContexts.go.findFirst`) -/
-theorem c20_structure : Extracted.cleanupNeedsEmptyBuffer = true := by decide
-
-/-- C20 for the extracted width: along every schedule, while fewer than `2^32` contexts are registered, the
-    counter is exactly the number of registered contexts of exited threads -/
-theorem C20_counter_extracted (s0 : BSt) (h0 : CtxFresh s0) (ops : List Op)
-    (hb : (runOps s0 ops).cfg.invalidBits = Extracted.invalidBits)
-    (hn : (runOps s0 ops).registry.length < 2 ^ 32) :
-    (runOps s0 ops).invalidCnt = invalidRegistered (runOps s0 ops) := by
-  apply C20_counter_exact s0 h0 ops
-  rw [hb]
-  exact Nat.lt_of_lt_of_le hn (Nat.pow_le_pow_right (by decide) invalid_counter_wide)
-
-/-- and the clean-up returns early only when there is nothing to reclaim -/
-theorem C20_early_return_extracted (s0 : BSt) (h0 : CtxFresh s0) (ops : List Op)
-    (hb : (runOps s0 ops).cfg.invalidBits = Extracted.invalidBits)
-    (hn : (runOps s0 ops).registry.length < 2 ^ 32) :
-    (runOps s0 ops).invalidCnt = 0 ↔ ∀ i ∈ (runOps s0 ops).registry, ((runOps s0 ops).th i).valid = true := by
-  apply C20_early_return_iff s0 h0 ops
-  rw [hb]
-  exact Nat.lt_of_lt_of_le hn (Nat.pow_le_pow_right (by decide) invalid_counter_wide)
-
-/-! ### C17 -/
-
-/-- the constructs `cleanupLoggers`, `applyFront (.removeBlocking …)` and `afterEnq` mirror are in place:
-    `LoggerManager::cleanup_invalidated_loggers` erases an invalid logger only in the else-branch of
-    `!check_queues_empty()`, re-evaluated for every invalid logger; that check is
-    `_check_frontend_queues_and_cached_transit_events_empty` (all queues and transit buffers); the removal flag is
-    stored after the erase and after the sink pruning; `remove_logger_blocking` enqueues its request before it
-    invalidates the logger and waits for the flag afterwards -/
-theorem c17_structure :
-    Extracted.eraseGuardedByEmptyCheck = true ∧ Extracted.checksQueuesPerLogger = true ∧
-    Extracted.emptyCheckIsAllQueues = true ∧ Extracted.removalFlagAfterErase = true ∧
-    Extracted.removalRequestBeforeInvalidate = true := by decide
-
-/-- instance of the main C17 theorem (no side-condition depends on an extracted value beyond `c17_structure`) -/
-theorem C17_erased_logger_has_no_record_extracted (s0 : BSt) (h0 : LoggerFresh s0) (ops : List Op) :
-    ∀ i, i < (runOps s0 ops).ths.length → ∀ st,
-      (st ∈ ((runOps s0 ops).th i).qStmts ∨ st ∈ ((runOps s0 ops).th i).buf) →
-      ((runOps s0 ops).lgOf st.lg).erased = false :=
-  (C17_erased_logger_has_no_record s0 h0 ops).1
-
-/-- instance of the global removal theorem: with the flag stored after the erase and the request enqueued before the
-    invalidation (`c17_structure`), a raised removal flag means the named logger object is erased -/
-theorem C17_removal_flag_after_erase_extracted (s0 : BSt) (h0 : RemovalFresh s0) (ops : List Op) (i : Nat) (st : Stmt)
-    (f : Nat) (hst : st ∈ ((runOps s0 ops).th i).accepted) (hk : st.kind = .removal f) (hf : f ∈ (runOps s0 ops).flags) :
-    ((runOps s0 ops).lgOf st.lg).erased = true :=
-  C17_removal_flag_after_erase s0 h0 ops i st f hst hk hf
-
-/-! ### C07 (drain part) -/
-
-/-- `_exit` has the shape `exitLoop` mirrors: loop until the emptiness check says yes, then report the failure
-    counters, flush the sinks and leave the loop; the batch loop inside is guarded by the pending check; contexts
-    and loggers are reclaimed after the loop -/
-theorem c07_structure : Extracted.exitDrainShape = true ∧ Extracted.batchGuardInExit = true := by decide
-
-/-- instance of the drain theorem (its only side-condition on the configuration is a positive header size, part of
-    `DrainFresh`) -/
-theorem C07_exit_drains_extracted (s0 : BSt) (h0 : DrainFresh s0) (ops : List Op)
-    (hg : (runOps s0 ops).backendGone = false)
-    (he : PC.exitEnds (runInj []) 1000 100000 { runOps s0 ops with siteCnt := [] }) :
-    ∀ i, i < (applyOp (runOps s0 ops) .exit).1.ths.length →
-      ((applyOp (runOps s0 ops) .exit).1.th i).accepted = ((applyOp (runOps s0 ops) .exit).1.th i).popped :=
-  fun i hi => ((C07_exit_drains s0 h0 ops hg he).1 i hi).2.2
-
-end Obligations.BackendC
+import QuillModel.Obligations.BackendC_C07
+import QuillModel.Obligations.BackendC_C16
+import QuillModel.Obligations.BackendC_C17
+import QuillModel.Obligations.BackendC_C20
+import QuillModel.Obligations.BackendC_Common
+/-! Umbrella of the per-property obligation modules of proof bundle C (`BackendC_<Cxx>.lean`). -/
